@@ -241,6 +241,35 @@ def outcome_of(fn):
             return ("exc", type(e).__name__)
 
 
+def at_low_stack(fn, headroom):
+    """Run fn() with only `headroom` frames left below the recursion limit (deep call stacks are legal histories: a
+    classification that fails there - RecursionError inside an isinstance/ABC check - must not be remembered)."""
+    import sys
+    depth = 0
+    f = sys._getframe()
+    while f is not None:
+        depth += 1
+        f = f.f_back
+    n = sys.getrecursionlimit() - depth - headroom
+
+    def rec(k):
+        if k <= 0:
+            return fn()
+        return rec(k - 1)
+    try:
+        return rec(max(0, n))
+    except RecursionError:
+        return ("exc", "RecursionError")
+
+
+def run_op(ops_, name, value):
+    """ops_[name](value), or - for 'lowstack<H>:<name>' - the same with H frames of head-room."""
+    if name.startswith("lowstack"):
+        h, base = name[len("lowstack"):].split(":", 1)
+        return at_low_stack(lambda: ops_[base](value), int(h))
+    return ops_[name](value)
+
+
 def shape(x, SC):
     """Plain form + class names of nested synced nodes."""
     if isinstance(x, SC):
